@@ -170,7 +170,7 @@ func Main(args []string) int {
 	rep.Set("padding_jobs_not_executed", st.Info["padding_jobs"])
 	rep.Set("distinct_nontrivial", st.Info["nontrivial_executions"])
 	rep.Set("rule", "figures are those of the search with the largest deviation bound run (it contains the smaller ones); one execution = one history (configuration + up to "+fmt.Sprint(L)+
-		" blocks, each one event of the alphabet) replayed from genesis on the real application with the reference model run on every block, full-length histories followed by 2*interval+cycle+1 quiet blocks; histories containing a restart are additionally executed without the restart and the app hashes of all blocks compared; histories are distinct by construction (breadth-first over event sequences, successors only of new states); non-trivial = the execution contained at least one of: a decided WITHDRAW_REWARD (accepted, rejected above matured, rejected for an empty pool), a restart comparison, a credit with an absent signer, a delegators' credit, a burn-out block capped by the pool, a year change / end of schedule, a year skipped by the forecast, a year's books above its supply")
+		" blocks, each one event of the alphabet) replayed from genesis on the real application with the reference model run on every block, full-length histories followed by 2*interval+1 quiet blocks; histories containing a restart are additionally executed without the restart and the app hashes of all blocks compared; histories are distinct by construction (breadth-first over event sequences, successors only of new states); non-trivial = the execution contained at least one of: a decided WITHDRAW_REWARD (accepted, rejected above matured, rejected for an empty pool), a restart comparison, a credit with an absent signer, a delegators' credit, a burn-out block capped by the pool, a year change / end of schedule, a year skipped by the forecast, a year's books above its supply")
 	rep.Set("deviation_bound_completed", boundDone)
 	rep.Set("depth_completed", depthDone)
 	rep.Set("per_bound", perBound)
@@ -190,7 +190,7 @@ func Main(args []string) int {
 	rep.Set("alphabet", names)
 	rep.Set("bounds", map[string]interface{}{
 		"blocks_per_history": L, "deviations_per_history": K, "big_time_steps_per_history": maxBigDt, "events_per_block": nev,
-		"validators": "4 x equal power / 3 x 2:1:7", "quiet_blocks_after_full_length_histories": "2*interval+cycle+1",
+		"validators": "4 x equal power / 3 x 2:1:7", "quiet_blocks_after_full_length_histories": "2*interval+1",
 		"search": "deviation-bounded breadth-first search, all successors of every new state, dedup on configuration + height + recent block times + deviations spent + restart age + digest of the reward, delegation-reward, delegation and pool-balance records",
 	})
 	rep.Assume("block times advance by at least one second per block (Tendermint's default TimeIotaMs = 1000, which the repository's genesis generator uses): a calculation cycle never lasts 0 seconds")
